@@ -1,5 +1,5 @@
 (* C10 -- proofs about Model/HeapLimit.v *)
-From Aelys Require Import Base.Tactics Extracted.HeapConsts Model.HeapLimit.
+From Aelys Require Import Base.Tactics Extracted.HeapConsts Model.HeapLimit Model.HeapLimitObs.
 Local Open Scope N_scope.
 
 Lemma ensure_spec m add :
@@ -164,6 +164,18 @@ Proof.
   - cbn. repeat split; auto.
 Qed.
 
+Lemma string_checked_step cap m total : Inv m ->
+  let '(r, m', t) := op_string_checked cap m total in
+  step_ok m r m' /\ check_first t = true /\ (r = ROom -> host_total t = 0).
+Proof.
+  unfold step_ok, Inv. intro HI. unfold op_string_checked.
+  destruct (ISIZE_MAX <? total); [cbn; repeat split; auto|].
+  destruct (ensure m (SZ_STRING + total)) eqn:E.
+  - apply ensure_sound in E. destruct (host_ok cap total); cbn [add_heap heap manual maxb check_first host_total];
+      repeat split; auto; intros; try lia; discriminate.
+  - cbn. repeat split; auto.
+Qed.
+
 Lemma bytes_step cap m n : Inv m -> let '(r, m', t) := op_bytes cap m n in step_ok m r m' /\ m' = m.
 Proof.
   unfold step_ok. intro HI. unfold op_bytes.
@@ -179,7 +191,7 @@ Lemma gstep_inv cap m o : Inv m ->
   (match o with GStr _ | GBytes _ | GManualFree _ | GSweep _ => True | GRepeat _ n => (0 < n)%Z -> check_first t = true
               | _ => check_first t = true end).
 Proof.
-  intros HI Hv. destruct o as [len | size | n | b | sz | e n | v | v a | sl n | sc sb pb w | n]; cbn [gstep].
+  intros HI Hv. destruct o as [len | size | n | b | sz | e n | v | v a | sl n | sc sb pb w | n | total]; cbn [gstep].
   - pose proof (string_step m len HI) as H. destruct (op_string m len) as [[r m'] t]. destruct H as (A & B & C). auto.
   - pose proof (object_step m size HI) as H. destruct (op_object m size) as [[r m'] t]. destruct H as ((A & B & C) & D). auto.
   - pose proof (manual_step m n HI) as H. destruct (op_manual m n) as [[r m'] t]. destruct H as ((A & B & C) & D). auto.
@@ -192,6 +204,7 @@ Proof.
     repeat split; auto. intro Hn. apply D; assumption.
   - pose proof (pad_step cap m sc sb pb w HI) as H. destruct (op_pad cap m sc sb pb w) as [[r m'] t]. destruct H as ((A & B & C) & D & _). auto.
   - pose proof (bytes_step cap m n HI) as H. destruct (op_bytes cap m n) as [[r m'] t]. destruct H as ((A & B & C) & D). auto.
+  - pose proof (string_checked_step cap m total HI) as H. destruct (op_string_checked cap m total) as [[r m'] t]. destruct H as ((A & B & C) & D & _). auto.
 Qed.
 
 Definition vec_ok (o : gop) : Prop :=
@@ -288,3 +301,132 @@ Lemma repaired_string_witness :
   (* a three-byte pad character: 400 000 characters are 1.2 MB *)
   op_pad w_cap w_mem 16 16 3 400016 = (ROom, w_mem, [ECheck 1200040 false]).
 Proof. vm_compute. repeat split; reflexivity. Qed.
+(* ---- the executable loops of the tie (Model/HeapLimitObs.v) *)
+Definition cont (cap : N) (k : N) (st : res * mem * vecst) := N.iter k (push_step cap) st.
+
+Lemma cont_add cap a b st : cont cap (a + b) st = cont cap a (cont cap b st).
+Proof. unfold cont. apply N.iter_add. Qed.
+
+Lemma push_step_not_ok cap r m v : r <> ROk -> push_step cap (r, m, v) = (r, m, v).
+Proof. intro H. unfold push_step. destruct r; congruence. Qed.
+
+Lemma cont_not_ok cap k r m v : r <> ROk -> cont cap k (r, m, v) = (r, m, v).
+Proof.
+  intro H. unfold cont. induction k using N.peano_ind; [reflexivity|].
+  rewrite N.iter_succ, IHk. apply push_step_not_ok; assumption.
+Qed.
+
+(* pushes that fit the capacity only move the length *)
+Lemma cont_within cap m v k : vlen v + k <= vcap v -> cont cap k (ROk, m, v) = (ROk, m, push_jump v k).
+Proof.
+  unfold cont. induction k using N.peano_ind; intro H.
+  - cbn. unfold push_jump. destruct v; cbn. rewrite N.add_0_r. reflexivity.
+  - rewrite N.iter_succ, IHk by lia.
+    unfold push_step, op_vec_push, vec_grow, push_jump. cbn.
+    destruct (1 <=? vcap v - (vlen v + k)) eqn:E; [|lia]. cbn.
+    replace (vlen v + k + 1) with (vlen v + N.succ k) by lia. reflexivity.
+Qed.
+
+Lemma fast_step_inv cap n0 st0 n st :
+  cont cap n0 st0 = cont cap n st ->
+  let '(n', st') := fast_step cap (n, st) in cont cap n0 st0 = cont cap n' st'.
+Proof.
+  intro H. destruct st as [[r m] v]. unfold fast_step.
+  destruct r; try (rewrite H; rewrite cont_not_ok by discriminate; reflexivity).
+  destruct (n =? 0) eqn:E0; [exact H|].
+  destruct (vlen v <? vcap v) eqn:E1.
+  - set (k := N.min n (vcap v - vlen v)).
+    rewrite H. replace n with ((n - k) + k) at 1 by lia.
+    rewrite cont_add. rewrite (cont_within cap m v k) by lia. reflexivity.
+  - rewrite H. replace n with ((n - 1) + 1) at 1 by lia.
+    rewrite cont_add. reflexivity.
+Qed.
+
+Lemma fast_iter_inv cap n0 st0 b : forall n st,
+  cont cap n0 st0 = cont cap n st ->
+  let '(n', st') := N.iter b (fast_step cap) (n, st) in cont cap n0 st0 = cont cap n' st'.
+Proof.
+  induction b using N.peano_ind; intros n st H.
+  - cbn. exact H.
+  - rewrite N.iter_succ. specialize (IHb n st H).
+    destruct (N.iter b (fast_step cap) (n, st)) as [n1 st1].
+    apply (fast_step_inv cap n0 st0 n1 st1 IHb).
+Qed.
+
+Lemma push_fast_correct bound n cap m v r :
+  push_fast bound n cap m v = (0, r) -> push_many_n n cap m v = r.
+Proof.
+  unfold push_fast, push_many_n. intro H.
+  pose proof (fast_iter_inv cap n (ROk, m, v) bound n (ROk, m, v) eq_refl) as K.
+  rewrite H in K. exact K.
+Qed.
+
+(* ---- the loops used by the tie keep the invariant *)
+Definition vst_ok (st : res * mem * vecst) : Prop :=
+  let '(_, m, v) := st in Inv m /\ vcharged v = vec_bytes v /\ vlen v <= vcap v.
+
+Lemma push_step_ok cap st : vst_ok st -> vst_ok (push_step cap st).
+Proof.
+  destruct st as [[r m] v]. intros (HI & Hc & Hl). unfold push_step.
+  destruct r; try (repeat split; assumption).
+  pose proof (vec_push_step cap m v HI Hc Hl) as H.
+  destruct (op_vec_push cap m v) as [[[r2 m2] v2] t]. destruct H as ((A & _ & _) & _ & C & _ & E & K).
+  destruct r2; try (destruct (K ltac:(discriminate)) as [-> ->]; repeat split; assumption).
+  destruct (E eq_refl) as [_ L]. repeat split; assumption.
+Qed.
+
+Lemma push_many_n_ok n cap m v : Inv m -> vcharged v = vec_bytes v -> vlen v <= vcap v -> vst_ok (push_many_n n cap m v).
+Proof.
+  intros HI Hc Hl. unfold push_many_n. induction n using N.peano_ind.
+  - cbn. repeat split; assumption.
+  - rewrite N.iter_succ. apply push_step_ok. exact IHn.
+Qed.
+
+Lemma alloc_seq_inv l : forall m, Inv m -> Inv (snd (alloc_seq m l)) /\ maxb (snd (alloc_seq m l)) = maxb m.
+Proof.
+  induction l as [|[a ch] r IH]; intros m HI; cbn [alloc_seq]; [split; auto|].
+  destruct (ensure m a) eqn:E; [|split; auto].
+  apply ensure_sound in E. destruct ch.
+  - assert (HI' : Inv (add_heap m a)) by (unfold Inv in *; cbn [add_heap heap manual maxb]; lia).
+    destruct (IH _ HI') as [A B]. split; [exact A | rewrite B; reflexivity].
+  - apply IH; assumption.
+Qed.
+
+Lemma loop_step_ok cap allocs st : vst_ok st -> vst_ok (loop_step cap allocs st).
+Proof.
+  destruct st as [[r m] v]. intros (HI & Hc & Hl). unfold loop_step.
+  destruct r; try (repeat split; assumption).
+  pose proof (alloc_seq_inv allocs m HI) as [A _].
+  destruct (alloc_seq m allocs) as [r1 m1]. cbn [snd] in A.
+  destruct r1; try (repeat split; assumption).
+  apply push_step_ok. repeat split; assumption.
+Qed.
+
+Lemma loop_run_ok n cap allocs m v : Inv m -> vcharged v = vec_bytes v -> vlen v <= vcap v -> vst_ok (loop_run n cap allocs m v).
+Proof.
+  intros HI Hc Hl. unfold loop_run. induction n using N.peano_ind.
+  - cbn. repeat split; assumption.
+  - rewrite N.iter_succ. apply loop_step_ok. exact IHn.
+Qed.
+
+(* repeated s = s + s with the collector: the budget invariant holds at every step, and garbage never exceeds the heap *)
+Definition cst_ok (c : cst) : Prop := Inv (c_mem c) /\ c_garbage c + c_cur c <= heap (c_mem c).
+Lemma concat_step_ok st : cst_ok (snd st) -> cst_ok (snd (concat_step st)).
+Proof.
+  destruct st as [r c]. cbn [snd]. intros [HI Hg]. unfold concat_step.
+  destruct r; try (split; assumption).
+  unfold cst_ok, Inv in *.
+  destruct (c_next c <=? heap (c_mem c)) eqn:En.
+  - destruct (ensure (mkMem (heap (c_mem c) - c_garbage c) (manual (c_mem c)) (maxb (c_mem c))) (SZ_STRING + 2 * c_len c)) eqn:E.
+    + apply ensure_sound in E. cbn [snd c_mem c_garbage c_cur add_heap heap manual maxb] in *. lia.
+    + cbn [snd c_mem c_garbage c_cur heap manual maxb]. lia.
+  - destruct (ensure (c_mem c) (SZ_STRING + 2 * c_len c)) eqn:E.
+    + apply ensure_sound in E. cbn [snd c_mem c_garbage c_cur add_heap heap manual maxb] in *. lia.
+    + cbn [snd c_mem c_garbage c_cur]. lia.
+Qed.
+Lemma concat_gc_ok n m sl : Inv m -> cst_ok (snd (concat_gc n m sl)).
+Proof.
+  intro HI. unfold concat_gc. induction n using N.peano_ind.
+  - cbn. split; [exact HI | cbn; lia].
+  - rewrite N.iter_succ. apply concat_step_ok. exact IHn.
+Qed.
